@@ -47,7 +47,7 @@ func init() {
 		Header:   "From ZenoV Require Import Lib.Harness Safe.SafeHarness.\n",
 		CaseType: "fcase",
 		Footer:   "\nDefinition DIFF := Eval vm_compute in fdiffs cases.\nPrint DIFF.\nDefinition MON := Eval vm_compute in fmons cases.\nPrint MON.\n",
-		Rule:     "one case = (target, input): target in html (HTMLOutlinks+HTMLAssets), json, xml (+IsSitemapXML), sitemap, s3 (both listing styles), m3u8, pdf, post (postprocessItem with sniffed or deliberately wrong Content-Type), norm (NormalizeURL with and without parent), linkhdr, script, body (ProcessBody), site (reddit / ina / truthsocial / facebook entry points called directly), sitepost (postprocessItem on URLs that route to the site-specific arms - reddit info.json and pages, truthsocial account / lookup / statuses / posts, ina API and pages, facebook - with structure-aware API answers: fields missing, null, empty, wrongly typed, dist independent of children; domains crawl on/off, hop limit reached or not, depth 0-2); input = recipe (generator kind valid|mut|heavy|splice|patho|rand + seed) or explicit hex; run in a child process with recover(), watchdog and address-space cap; distinct by input text; non-trivial when the target accepted the input (returned without error)",
+		Rule:     "one case = (target, input): target in html (HTMLOutlinks+HTMLAssets), json, xml (+IsSitemapXML), sitemap, s3 (both listing styles), m3u8, pdf, post (postprocessItem with sniffed or deliberately wrong Content-Type), norm (NormalizeURL with and without parent), linkhdr, script, body (ProcessBody), arch (the real ProcessBody on an http.Response - status incl. 1xx/204/304, Content-Type, Location incl. values net/url refuses, body incl. empty and http.NoBody - then the real postprocessItem at depth 0-2; also checks that ProcessBody returning nil has set the MIME), site (reddit / ina / truthsocial / facebook entry points called directly), sitepost (postprocessItem on URLs that route to the site-specific arms - reddit info.json and pages, truthsocial account / lookup / statuses / posts, ina API and pages, facebook - with structure-aware API answers: fields missing, null, empty, wrongly typed, dist independent of children; domains crawl on/off, hop limit reached or not, depth 0-2); input = recipe (generator kind valid|mut|heavy|splice|patho|rand + seed) or explicit hex; run in a child process with recover(), watchdog and address-space cap; distinct by input text; non-trivial when the target accepted the input (returned without error)",
 		Setup:    setupFuzz,
 		Gen:      genFuzz,
 		Exec:     execFuzz,
@@ -260,6 +260,61 @@ func runTarget(target string, data []byte, tmp string) string {
 		}
 		if u.GetMIMEType() == nil {
 			panic("ProcessBody left the MIME type nil")
+		}
+	case "arch":
+		// what the archiver does with an answer, then what the post-processor does with the result:
+		// the real ProcessBody on an http.Response, ItemArchived when it returned nil (as archive() does),
+		// the real postprocessItem at depth 0..2.  Ties the invariant the dispatch theorem assumes
+		// (archived => response, MIME, parsed URL) to the code that has to establish it.
+		for len(data) < 3 {
+			data = append(data, 0)
+		}
+		status, flags, ct := archStatuses[int(data[0])%len(archStatuses)], data[1], archCTs[int(data[2])%len(archCTs)]
+		loc, body, _ := bytes.Cut(data[3:], []byte("\n"))
+		hdr := http.Header{}
+		if ct != "" {
+			hdr.Set("Content-Type", ct)
+		}
+		if flags&16 == 0 {
+			hdr["Location"] = []string{string(loc)}
+		}
+		u := &models.URL{Raw: pageURL}
+		u.Parse()
+		req := &http.Request{URL: u.GetParsed(), Header: http.Header{}}
+		u.SetRequest(req)
+		resp := &http.Response{StatusCode: status, Header: hdr, Request: req, Body: io.NopCloser(bytes.NewReader(body)), ContentLength: int64(len(body))}
+		if flags&8 != 0 {
+			resp.Body, resp.ContentLength = http.NoBody, 0
+		}
+		u.SetResponse(resp)
+		if flags&32 != 0 {
+			u.SetHops(1)
+		}
+		dc := flags&4 != 0
+		domainscrawl.Reset()
+		if dc {
+			domainscrawl.AddElements([]string{"site.example"})
+		}
+		item := models.NewItem("fz", u, "")
+		parent := item
+		for d := int(flags & 3); d > 0 && d < 3; d-- {
+			pu := &models.URL{Raw: "https://parent.example/"}
+			pu.Parse()
+			up := models.NewItem("fz-parent", pu, "")
+			up.AddChild(parent, models.ItemGotChildren)
+			parent = up
+		}
+		err := archiver.ProcessBody(u, false, dc, 1, tmp)
+		note(err)
+		if err == nil {
+			item.SetStatus(models.ItemArchived)
+		} else {
+			item.SetStatus(models.ItemFailed)
+		}
+		postprocessor.VerifC10PostprocessItem(item)
+		domainscrawl.Reset()
+		if err == nil && (u.GetResponse() == nil || u.GetMIMEType() == nil || u.GetParsed() == nil) {
+			panic("archiver invariant broken: ProcessBody returned nil but response / MIME type / parsed URL is not set")
 		}
 	case "sitepost":
 		// the REAL postprocessItem on an item whose URL routes to a site-specific arm of the dispatch
